@@ -191,6 +191,17 @@ func (s *Sched) settle() {
 			return
 		}
 		settled := quiet()
+		if settled && runtime.GOMAXPROCS(0) > 1 {
+			// With several Ps the counters are read P by P while goroutines move between run queues (a P that was
+			// idle when it was looked at may steal a goroutine from a queue that is looked at later): one reading is
+			// only approximate (seen as 3 diverging executions in 450 at GOMAXPROCS 16). A goroutine in transit is in
+			// a queue or running a moment later: three quiet readings in a row are required. (Confirming with the world
+			// stopped - runtime.Stack(all) - is exact but far too slow once finished runs have left goroutines behind.)
+			// With one P - how the workers run - a single reading is exact: the caller occupies the only P.
+			for k := 0; k < 2 && settled; k++ {
+				settled = quiet()
+			}
+		}
 		if !settled && spins > 0 && spins%400 == 0 {
 			// the process is not quiet for some other reason (a busy goroutine that has nothing to do with the run):
 			// look at the goroutines themselves
